@@ -41,15 +41,15 @@ func (v *Violation) Signature() string {
 
 // Partial is what one shard hands back to the parent.
 type Partial struct {
-	Evaluations  int64            `json:"evaluations"`
-	Nontrivial   []string         `json:"nontrivial"`
-	Samples      []any            `json:"samples"`
-	Violations   []Violation      `json:"violations"`
-	Inconclusive map[string]int64 `json:"inconclusive"`
-	NotJudged    map[string]int64 `json:"not_judged"`
-	Counters     map[string]int64 `json:"counters"`
+	Evaluations  int64               `json:"evaluations"`
+	Nontrivial   []string            `json:"nontrivial"`
+	Samples      []any               `json:"samples"`
+	Violations   []Violation         `json:"violations"`
+	Inconclusive map[string]int64    `json:"inconclusive"`
+	NotJudged    map[string]int64    `json:"not_judged"`
+	Counters     map[string]int64    `json:"counters"`
 	Sets         map[string][]string `json:"sets"`
-	Notes        map[string]any   `json:"notes"`
+	Notes        map[string]any      `json:"notes"`
 }
 
 // Ctx is handed to a check's Run function.
@@ -59,21 +59,21 @@ type Ctx struct {
 	Seed    uint64
 	Shard   int
 	NShards int
-	Race    bool // binary was built with -race
+	Race    bool   // binary was built with -race
 	WorkDir string // scratch directory for this shard (outside /repo and /verif)
 
-	mu          sync.Mutex
-	evals       int64
-	nontrivial  map[string]struct{}
-	samples     []any
-	violations  []Violation
-	violSigs    map[string]int
-	inconcl     map[string]int64
-	notJudged   map[string]int64
-	counters    map[string]int64
-	sets        map[string]map[string]struct{}
-	notes       map[string]any
-	maxSamples  int
+	mu         sync.Mutex
+	evals      int64
+	nontrivial map[string]struct{}
+	samples    []any
+	violations []Violation
+	violSigs   map[string]int
+	inconcl    map[string]int64
+	notJudged  map[string]int64
+	counters   map[string]int64
+	sets       map[string]map[string]struct{}
+	notes      map[string]any
+	maxSamples int
 }
 
 func NewCtx(prop, tier string, seed uint64, shard, nshards int) *Ctx {
@@ -265,9 +265,9 @@ type Check struct {
 	Level         string // evidence level
 	Rule          string // how cases are generated and what makes one non-trivial/distinct
 	Assumptions   []string
-	MinNontrivial int // below this the run "observed nothing" and fails as machinery error
-	MaxShards     int // 0 = default (NumCPU)
-	UsesRace      bool // the check has a -race pass (run by a second invocation with the race binary)
+	MinNontrivial int                              // below this the run "observed nothing" and fails as machinery error
+	MaxShards     int                              // 0 = default (NumCPU)
+	UsesRace      bool                             // the check has a -race pass (run by a second invocation with the race binary)
 	Exhaustive    func(tier string) (bool, string) // optional: which sub-space is enumerated completely
 	Run           func(c *Ctx)
 	// RaceRun, if set, is executed by the -race binary as an extra pass.
@@ -278,7 +278,7 @@ type Check struct {
 
 var registry = map[string]*Check{}
 
-func Register(ch *Check) { registry[ch.ID] = ch }
+func Register(ch *Check)      { registry[ch.ID] = ch }
 func Lookup(id string) *Check { return registry[id] }
 func All() []string {
 	ids := []string{}
